@@ -390,8 +390,12 @@ class RF24Mesh(RF24MeshNoMaster):
                 self.frame_buf.header.to_node = self.frame_buf.header.from_node
                 self.frame_buf.message = struct.pack("<H", new_addr)
                 if self.frame_buf.header.from_node != NETWORK_DEFAULT_ADDR:
-                    if not self._write(self.frame_buf.header.to_node, TX_NORMAL):
-                        self._write(self.frame_buf.header.to_node, TX_NORMAL)
+                    response = self.frame_buf.pack()
+                    if not self._write(via_node, TX_NORMAL):
+                        # frame_buf may hold a frame that came in while waiting for a
+                        # NETWORK_ACK; re-send the response, not that frame
+                        self.frame_buf.unpack(response)
+                        self._write(via_node, TX_NORMAL)
                 else:
                     self._write(self.frame_buf.header.to_node, TX_PHYSICAL)
                 break
